@@ -91,6 +91,8 @@ pub enum Cmd {
     NotifAnswer { peer: PeerId, accept: bool },
     /// stop polling the notification handle for this long (reader stall)
     NotifStall(Duration),
+    /// slow consumer: pause this long after every received notification (zero switches it off)
+    NotifThrottle(Duration),
     Kad(KadCmd),
     DropRr,
     DropNotif,
@@ -431,6 +433,7 @@ async fn node_main(
     let mut delayed: Vec<(Instant, RequestId, Vec<u8>)> = Vec::new();
     let mut stalled_requests: Vec<RequestId> = Vec::new();
     let mut notif_stall_until: Option<Instant> = None;
+    let mut notif_throttle = Duration::ZERO;
     let mut delayed_validation: Vec<(Instant, PeerId)> = Vec::new();
     loop {
         let next_due = delayed.iter().map(|d| d.0).chain(delayed_validation.iter().map(|d| d.0)).chain(notif_stall_until.iter().cloned()).min();
@@ -556,6 +559,7 @@ async fn node_main(
                         }
                     }
                     Cmd::NotifStall(d) => notif_stall_until = Some(Instant::now() + d),
+                    Cmd::NotifThrottle(d) => notif_throttle = d,
                     Cmd::Ping(tx) => { let _ = tx.send(()); }
                     Cmd::Kad(k) => {
                         if let Some(h) = kad.as_mut() {
@@ -610,7 +614,16 @@ async fn node_main(
                     Some(NotificationEvent::NotificationStreamOpened { peer, direction, .. }) => push(&log, index, ObsKind::NotifOpened { peer, inbound: matches!(direction, litep2p::protocol::notification::Direction::Inbound) }),
                     Some(NotificationEvent::NotificationStreamClosed { peer }) => push(&log, index, ObsKind::NotifClosed { peer }),
                     Some(NotificationEvent::NotificationStreamOpenFailure { peer, error }) => push(&log, index, ObsKind::NotifOpenFailure { peer, error: format!("{error:?}") }),
-                    Some(NotificationEvent::NotificationReceived { peer, notification }) => push(&log, index, ObsKind::NotifReceived { peer, data: notification.to_vec() }),
+                    Some(NotificationEvent::NotificationReceived { peer, notification }) => {
+                        push(&log, index, ObsKind::NotifReceived { peer, data: notification.to_vec() });
+                        if !notif_throttle.is_zero() {
+                            // a busy consumer: spin rather than sleep, timer granularity would make every pause a millisecond
+                            let until = Instant::now() + notif_throttle;
+                            while Instant::now() < until {
+                                std::hint::spin_loop();
+                            }
+                        }
+                    }
                 }
             }
             ev = opt_next(&mut kad) => {
